@@ -818,6 +818,16 @@ def gen_C05_ev(rng):
                 "plus": (a0 and b0, ai or bi), "max": (a0 and b0, ai or bi),
                 "mult": (a0 or b0, ai or bi), "min": (a0 or b0, ai and bi),
             }.get(op, (True, ai))
+            if rng.random() < 0.25 and ctx.edges[a] is fr and op not in ("div", "mod", "minus"):
+                # the same operation computed into (a copy of) the first operand's edge
+                c = ctx.fresh()
+                ctx.emit("copyedge %s %s" % (c, a))
+                ctx.edges[c] = fr
+                flags[c] = flags[a]
+                ctx.emit("applyinto %s %s %s %s" % (c, op, c, b))
+                flags[c] = flags[n]
+                ctx.emit("show %s" % c)
+                ctx.emit("eq %s %s" % (c, n))
         # operands unchanged
         if rng.random() < 0.3:
             ctx.emit("show %s" % a)
@@ -1120,24 +1130,32 @@ def gen_recycle_cached(rng):
         op = rng.choice(ops)
         ctx.emit("apply R%d F %s A B" % (rnd, op))
         ctx.edges["R%d" % rnd] = f
-        # something newer than the result, not in any compute table
-        y = gen_leaf(ctx, f, "Y%d" % rnd)
+        # something newer than the result, not in any compute table (a variable edge is
+        # built without operations)
+        if rng.random() < 0.6:
+            y = gen_var(ctx, f, "Y%d" % rnd)
+        else:
+            y = gen_leaf(ctx, f, "Y%d" % rnd)
         order = ["R%d" % rnd, "Y%d" % rnd]
         if rng.random() < 0.3:
             order.reverse()
         for e in order:
             ctx.emit("release %s" % e)
             ctx.edges.pop(e, None)
-        # unrelated new functions take the freed handles
-        for i in range(rng.randint(1, 6)):
-            gen_leaf(ctx, f, "N%d_%d" % (rnd, i))
+        # unrelated new functions take the freed handles (enough of them to use up the
+        # free lists, so that handles beyond the last used one are handed out)
+        for i in range(rng.choice([rng.randint(1, 6), rng.randint(6, 12)])):
+            if rng.random() < 0.5:
+                gen_var(ctx, f, "N%d_%d" % (rnd, i))
+            else:
+                gen_leaf(ctx, f, "N%d_%d" % (rnd, i))
         ctx.emit("apply S%d F %s A B" % (rnd, op))
         ctx.edges["S%d" % rnd] = f
         ctx.emit("show A")
         ctx.emit("show B")
         ctx.emit("audit F")
         if rng.random() < 0.5:
-            for i in range(6):
+            for i in range(12):
                 nm = "N%d_%d" % (rnd, i)
                 if nm in ctx.edges and rng.random() < 0.7:
                     ctx.emit("release %s" % nm)
@@ -1371,6 +1389,68 @@ def gen_levels(rng):
         a = pick()
         b = rng.choice([a, -a, pick(), pick()])
         L.append("lvl %d %d" % (a, b))
+    return "\n".join(L) + "\n"
+
+
+def gen_C06_tail_handles(rng):
+    """node-level histories around the top of the handle range: the nodes with the largest
+    handles are mentioned by cache entries, a newer node above them is not; the cached
+    nodes lose their last reference (pessimistic: deleted, handle reserved), then the top
+    node goes (the handle range shrinks), then new nodes are created -- none of them may
+    get a reserved handle; finally the entries are removed and the handles may be reused"""
+    w = rng.choice([3, 4, 5])
+    pol = rng.choice(["pess", "pess", "pess", "opt"])
+    L = ["init " + rand_ctopts(rng), "auditmode lenient", "domain D %d 2" % w,
+         "forest F D set int mt qr del=%s %s" % (pol, rand_opts(rng).replace("del=opt", "").replace("del=never", "").replace("del=pess", ""))]
+    n = [0]
+    seen = set()
+
+    def node():
+        while True:
+            cs = ["t%d" % rng.choice([0, 1, 2, 3, 4, 5, 6]) for _ in range(w)]
+            if tuple(cs) not in seen and any(c != "t0" for c in cs):
+                seen.add(tuple(cs))
+                break
+        n[0] += 1
+        nm = "n%d" % n[0]
+        L.append("nnew %s F 1 %s" % (nm, " ".join(cs)))
+        return nm
+
+    held = [node() for _ in range(rng.randint(0, 3))]
+    for rnd in range(rng.randint(2, 4)):
+        cached = [node() for _ in range(rng.randint(1, 3))]
+        toks = []
+        for c in cached:
+            for _ in range(rng.choice([1, 1, 2])):
+                n[0] += 1
+                t = "T%d" % n[0]
+                L.append("ncache %s %s" % (t, c))
+                toks.append(t)
+        tops = [node() for _ in range(rng.randint(1, 2))]
+        order = cached[:]
+        rng.shuffle(order)
+        for c in order:
+            L.append("ndrop %s" % c)
+        for t_ in reversed(tops):
+            L.append("ndrop %s" % t_)
+        fresh = [node() for _ in range(rng.randint(2, 5))]
+        if rng.random() < 0.7:
+            rng.shuffle(toks)
+            for t in toks:
+                L.append("nuncache %s" % t)
+            toks = []
+            fresh += [node() for _ in range(rng.randint(1, 3))]
+        held += fresh
+        for t in toks:
+            L.append("nuncache %s" % t)
+        if rng.random() < 0.5 and held:
+            x = held.pop(rng.randrange(len(held)))
+            L.append("ndrop %s" % x)
+        L.append("audit F")
+    rng.shuffle(held)
+    for x in held:
+        L.append("ndrop %s" % x)
+    L.append("audit F")
     return "\n".join(L) + "\n"
 
 
@@ -1841,6 +1921,141 @@ def gen_rel_minterms(ctx, f, name, nmax=6, p_dc=None, p_same=None):
         parts += [";"] + rand_pos_rel(rng, f.dom, p_dc, p_same) + ["=>", v]
     ctx.emit(" ".join(parts))
     ctx.edges[name] = f
+
+
+def gen_C09_dist(rng):
+    """one-step images of distance-valued sets (EV+ with +infinity, or MT integers with -1
+    for unreachable): one plus the minimum over predecessors / successors; the empty
+    relation and the nowhere-reachable operand give THE unreachable edge; images computed
+    into the operand edge itself (result aliases the operand) give the same answer"""
+    ctx = Ctx(rng)
+    ctx.emit("init " + rand_ctopts(rng))
+    d = rand_domain(rng, "D", False, 40, 3)
+    ctx.emit(d.decl())
+    ctx.doms.append(d)
+    evp = rng.random() < 0.7
+    if evp:
+        S = Forest("S", d, False, "int", "evp", rng.choice(RULES_SET), rand_opts(rng))
+    else:
+        S = Forest("S", d, False, "int", "mt", "fr", rand_opts(rng))
+    R = Forest("R", d, True, "bool", "mt", rng.choice(RULES_REL), rand_opts(rng))
+    ctx.emit(S.decl())
+    ctx.emit(R.decl())
+    ss, rr = [], []
+    for i in range(rng.randint(1, 3)):
+        nm = "s%d" % i
+        parts = ["coll", nm, "S"] + (["min", "inf"] if evp else ["max", "-1"])
+        for _ in range(rng.choice([1, 2, 3])):
+            parts += [";"] + rand_pos_set(rng, d, rng.choice([0, 0, 0.3])) + ["=>", str(rng.choice([0, 1, 2, 4, 7]))]
+        ctx.emit(" ".join(parts))
+        ctx.edges[nm] = S
+        ss.append(nm)
+    # the nowhere-reachable function
+    if evp:
+        ctx.emit("coll u S min inf ; %s => inf" % " ".join("0" for _ in d.sizes))
+    else:
+        ctx.emit("const u S -1")
+    ctx.edges["u"] = S
+    for i in range(rng.randint(1, 3)):
+        nm = "r%d" % i
+        gen_rel_minterms(ctx, R, nm)
+        rr.append(nm)
+    if rng.random() < 0.6:
+        ctx.emit("const r_empty R 0")
+        ctx.edges["r_empty"] = R
+        rr.append("r_empty")
+    for _ in range(rng.randint(3, 8)):
+        s, r = rng.choice(ss + ["u"]), rng.choice(rr)
+        op = rng.choice(["post", "pre"])
+        n = ctx.fresh()
+        ctx.emit("apply %s S %s %s %s" % (n, op, s, r))
+        ctx.edges[n] = S
+        q = rng.random()
+        if q < 0.4:
+            # in place: the result edge is (a copy of) the operand edge
+            c = ctx.fresh()
+            ctx.emit("copyedge %s %s" % (c, s))
+            ctx.edges[c] = S
+            ctx.emit("applyinto %s %s %s %s" % (c, op, c, r))
+            ctx.emit("show %s" % c)
+            ctx.emit("eq %s %s" % (c, n))
+        elif q < 0.6 and (r == "r_empty" or s == "u"):
+            ctx.emit("eq %s u" % n)
+        if rng.random() < 0.5:
+            ss.append(n)
+    ctx.emit("audit S")
+    return ctx.text()
+
+
+def gen_C09_skiptop(rng):
+    """images and vector-matrix products where the set/vector depends only on variables
+    BELOW the variable the relation acts on (fully-reduced: its node lies below the level
+    being processed, or it is a constant) and the identity-reduced relation skips the
+    small upper variables: the redundant expansion of the set has to take the size of the
+    level the relation acts on, which is larger than the sizes above it"""
+    ctx = Ctx(rng)
+    ctx.emit("init")
+    k = rng.choice([2, 3, 3])
+    act = rng.randint(1, k - 1)                  # the variable the events act on
+    sizes = []
+    for v in range(1, k + 1):
+        if v < act:
+            sizes.append(rng.choice([2, 3]))
+        elif v == act:
+            sizes.append(rng.choice([4, 5]))
+        else:
+            sizes.append(2)
+    d = Domain("D", sizes)
+    ctx.emit(d.decl())
+    ints = rng.random() < 0.35
+    rg = "int" if ints else "bool"
+    S = Forest("S", d, False, rg, "mt", rng.choice(["fr"] * 6 + ["qr"]), rand_opts(rng))
+    R = Forest("R", d, True, ("bool" if (ints and rng.random() < 0.4) else rg), "mt",
+               rng.choice(["ir"] * 5 + ["fr", "qr"]), rand_opts(rng))
+    ctx.emit(S.decl())
+    ctx.emit(R.decl())
+    ss, rr = [], []
+    for i in range(rng.randint(1, 3)):
+        nm = "s%d" % i
+        if act == 1 or rng.random() < 0.3:
+            ctx.emit("const %s S %s" % (nm, "1" if rg == "bool" else str(rng.choice([1, 2]))))
+        else:
+            parts = ["coll", nm, "S", "max", "0"]
+            for _ in range(rng.choice([1, 2])):
+                pos = [(str(rng.randrange(sizes[v])) if (v + 1 < act and rng.random() < 0.8) else "x") for v in range(k)]
+                parts += [";"] + pos + ["=>", "1" if rg == "bool" else str(rng.choice([1, 2, 3]))]
+            ctx.emit(" ".join(parts))
+        ctx.edges[nm] = S
+        ss.append(nm)
+    for i in range(rng.randint(1, 3)):
+        nm = "r%d" % i
+        parts = ["coll", nm, "R", "max", "0"]
+        for _ in range(rng.choice([2, 3, 4])):
+            pos = []
+            for v in range(1, k + 1):
+                if v == act:
+                    pos += [str(rng.randrange(sizes[v - 1])), str(rng.randrange(sizes[v - 1]))]
+                elif v > act:
+                    pos += ["x", "="]
+                else:
+                    pos += rng.choice([["x", "="], ["x", "="], [str(rng.randrange(sizes[v - 1])), "="],
+                                       [str(rng.randrange(sizes[v - 1])), str(rng.randrange(sizes[v - 1]))]])
+            parts += [";"] + pos + ["=>", "1" if R.range == "bool" else str(rng.choice([1, 2, 3]))]
+        ctx.emit(" ".join(parts))
+        ctx.edges[nm] = R
+        rr.append(nm)
+    for _ in range(rng.randint(3, 7)):
+        s, r = rng.choice(ss), rng.choice(rr)
+        n = ctx.fresh()
+        if ints:
+            if rng.random() < 0.5:
+                ctx.emit("apply %s S vm %s %s" % (n, s, r))
+            else:
+                ctx.emit("apply %s S mv %s %s" % (n, r, s))
+        else:
+            ctx.emit("apply %s S %s %s %s" % (n, rng.choice(["post", "pre"]), s, r))
+            ctx.edges[n] = S
+    return ctx.text()
 
 
 def gen_C09(rng):
